@@ -14,10 +14,10 @@ typedef uint64_t addr_t;    /* ip::address: bit 47 set = v6, 0 = unspecified/def
 typedef uint64_t ep_t;      /* endpoint = (addr << 16) | port                 */
 typedef struct { int id; } str_t;                 /* std::string, opaque      */
 typedef struct { int len; int id; int last; } route_t;   /* route: hop count, identity of the hop sequence, identity of last hop */
-typedef struct { size_t sz; int id; } buf_t;      /* std::vector<uint8_t>: size + identity of the byte content */
+typedef struct { size_t sz; int id; const uint8_t *data; } buf_t;   /* std::vector<uint8_t>: size, identity of the byte content, data() */
 #define bufsz buffer.sz
 #define ROUTE_EMPTY ((route_t){0, 0, 0})
-#define BUF_EMPTY ((buf_t){0, 0})
+#define BUF_EMPTY ((buf_t){0, 0, (const uint8_t *)0})
 
 #define ADDR_V6_BIT ((addr_t)1 << 47)
 #define ADDR_NONE ((addr_t)0)
@@ -51,9 +51,25 @@ enum {
 #define NS_FROM_US(e) ((int64_t)(e) * 1000)
 #define NS_FROM_MS(e) ((int64_t)(e) * 1000000)
 #define NS_FROM_S(e)  ((int64_t)(e) * 1000000000)
-#define NS_TO_US(e) ((int64_t)(e) / 1000)
-#define NS_TO_MS(e) ((int64_t)(e) / 1000000)
-#define NS_TO_S(e)  ((int64_t)(e) / 1000000000)
+/* truncating division by a positive constant: UNINTERPRETED in the proofs (no SAT back end here finishes on 64-bit
+ * divider circuits, nor on their Euclidean characterisation).  Contracts state WHICH value is divided by WHICH
+ * constant (ghost log below); the arithmetic facts about the quotient are bounded native checks, listed as such. */
+int64_t nondet_i64(void);
+int64_t __CPROVER_uninterpreted_divc(int64_t x, int64_t K);
+struct divrec { int64_t x; int64_t K; int64_t q; };
+extern struct divrec g_divlog[4];
+extern size_t g_divn;
+static inline int64_t vf_divc(int64_t x, int64_t K)
+{
+  int64_t res = __CPROVER_uninterpreted_divc(x, K);
+  if (g_divn < 4) { g_divlog[g_divn].x = x; g_divlog[g_divn].K = K; g_divlog[g_divn].q = res; }
+  g_divn = g_divn + 1;
+  return res;
+}
+#define DIV_GHOST g_divlog, g_divn
+#define NS_TO_US(e) vf_divc((int64_t)(e), 1000)
+#define NS_TO_MS(e) vf_divc((int64_t)(e), 1000000)
+#define NS_TO_S(e)  vf_divc((int64_t)(e), 1000000000)
 #define T_MAX (((int64_t)1 << 61) - 1)     /* global assumption: all times below 2^61 ns (73 years) */
 #define TE_MAX (((int64_t)1 << 62) - 1)     /* timer expiries: sums of two times */
 #define SZ_MAX (1 << 30)             /* global assumption: int byte quantities (queue occupancy, capacities) at most 2^30 */
